@@ -216,6 +216,19 @@ def units(tier, seed=0):
                                        tag='/isolation/foreign-different/%d' % i, foreign_config=fc):
             u.name = 'isolation/foreign-different/%d/%s' % (i, u.name)
             us.append(u)
+    # a foreign instance with a DIFFERENT configuration constructed and stepped BEFORE this one is constructed: this
+    # instance's configuration is the one loaded last (so the singleton of F015 is not in play) and its step must equal
+    # its solo step; own configurations differ from the foreign one in arch version / security / memory architecture
+    pairs = [(dict(arch=7, vmsa=True), dict(arch=6)), (dict(arch=7), dict(arch=7, vmsa=True)),
+             (dict(arch=6), dict(arch=7, sec=False))]
+    for i, (own, fc) in enumerate(pairs):
+        rows_b = [r for r in ('LdrImmediateArmA1', 'StrRegisterT2', 'LdrexA1', 'MovRegisterArmA1', 'BxA1')
+                  if r in ISA and ISA[r].arch <= own['arch']]
+        for u in famcheck.family_units(set(ISA[r].family for r in rows_b), [own['arch']], T,
+                                       only=rows_b if tier != 'quick' else rows_b[:3],
+                                       tag='/isolation/after-foreign-stepped/%d' % i, foreign_before=fc,
+                                       vmsa=own.get('vmsa', False)):
+            us.append(u)
     return us
 
 
@@ -235,7 +248,9 @@ META = {
                    'reads and writes only the instance own objects). Construction isolation: an instance built after a '
                    'foreign instance whose configured reset values are arbitrary (symbolic file contents) starts in '
                    'exactly the state of an instance built alone. With a DIFFERENT configuration the step changes: '
-                   'this is the module-level configuration singleton, a known finding (F015).',
+                   'this is the module-level configuration singleton, a known finding (F015). after-foreign-stepped units: '
+                   'a foreign instance of a different configuration is constructed and stepped BEFORE this instance is '
+                   'constructed (so this instance configuration is the one loaded last); the step must equal the solo step.',
     'bounds': ['scratch havoc on a 38-row sample (quick) / every row (thorough), arch 7', 'thread-level schedules are '
                'outside the technique (sequential symbolic execution); interleavings at step granularity are covered '
                'by the frame argument'],
